@@ -61,6 +61,7 @@ type VC struct {
 	key      string
 	contract *Contract
 	effective *Contract // contract merged with the inherited interface-level contract
+	aliases    map[string]string // contract name -> current name of a renamed local variable (REBOUND)
 	pathCovers bool // thorough tier: one reachability query per finished path
 	callSeq, curCallSeq int // numbering of contract applications (names of per-call unknowns)
 	pendingAxioms []*Axiom // spec axioms / lemmas not yet translated (their vocabulary is not in use yet)
